@@ -488,7 +488,7 @@ JDType(ev, reg) ==
          IN IF own # "ok" THEN own ELSE IF ev.res[1].dtype # ev.dtype THEN "dtype" ELSE "ok"
     [] ev.fn = "arith" ->
          LET a == reg[ev.args[1]]  b == reg[ev.args[2]]
-             target == Promote(a.v.dtype, b.v.dtype)
+             target == IF ev.op = "pow" THEN a.v.dtype ELSE Promote(a.v.dtype, b.v.dtype)      \* ** keeps the base's dtype
          IN IF ~BroadcastOK2(a.d.shape, b.d.shape) THEN "ok"
             ELSE LET own == ExpectDen(ev, "poly", DCast(DArith(ev.op, a.d, b.d), target))
                  IN IF own # "ok" THEN own ELSE IF ev.res[1].dtype # target THEN "dtype" ELSE "ok"
